@@ -26,7 +26,7 @@ prop("C02", [
     S(REASM, "^TestC02$", q=20000, t=200000, shards=16),
     S(REASM, "^TestC02Large$", kind="plain"),
 ], REASM_ASSUME + ["sequence numbers of a history lie in one 2^24 window (stated by the property)"],
-   nontrivial_classes=["history-with-out-of-order-buffering", "history-straddling-seam", "history-with-late-arrival"])
+   nontrivial_classes=["history-with-out-of-order-buffering", "history-straddling-seam", "history-with-late-arrival", "history-with-push-from-eventslost"])
 
 prop("C10", [
     S(REASM, "^TestC10(Timed)?Regress$", kind="plain"),
@@ -72,11 +72,12 @@ prop("C05", [
     S(PARSE, "^TestC05RepoLogs$", kind="plain"),
     S(PARSE, "^TestC05BodySoup$", kind="plain", timeout_t=3000),
     S(PARSE, "^TestC05HeaderSoup$", kind="plain"),
+    S(PARSE, "^TestC05NumberSoup$", kind="plain", timeout_t=3000),
     S(PARSE, "^TestC05$", q=60000, t=1000000, shards=16, timeout_t=3000),
     S(PARSE, "", kind="fuzz", fuzz="FuzzParse", fuzztime_t=120),
     S(PARSE, "", kind="fuzz", fuzz="FuzzParseLogLine", fuzztime_t=120),
 ], ["absence of panics/hangs is sampled, not proved", "hang watchdog: 30 s per case for work that takes microseconds"],
-   nontrivial_classes=["header-accepted", "header-soup-sweep", "body-soup-sweep", "enrich-type-1300", "enrich-type-1306", "enrich-type-1309", "enrich-type-1400", "enrich-type-1327"])
+   nontrivial_classes=["header-accepted", "header-soup-sweep", "body-soup-sweep", "number-soup-sweep", "enrich-type-1300", "enrich-type-1306", "enrich-type-1309", "enrich-type-1400", "enrich-type-1327"])
 
 prop("C12", [
     S(PARSE, "^TestC12Regress$", kind="plain"),
@@ -216,6 +217,8 @@ prop("C15", [
     S(COAL, "^TestC15TableIsolation$", kind="plain"),
     S(COAL, "^TestC15FirstSight$", kind="plain", race=True, q=20, t=300),
     S(COAL, "^TestC15FirstSight$", kind="plain", q=40, t=1000),
+    S(COAL, "^TestC15SameID$", kind="plain", race=True, q=100, t=2000),
+    S(COAL, "^TestC15SameID$", kind="plain", q=300, t=20000),
     S(COAL, "^TestC15Concurrent$", kind="plain", race=True, q=300, t=20000, timeout_t=3000),
     S(COAL, "^TestC15Concurrent$", kind="plain", q=300, t=20000, timeout_t=3000),
 ], ["events are compared as deep copies with warnings by text; nil and empty containers are not distinguished",
